@@ -175,3 +175,35 @@ def find_stmts(fi: FuncInfo, pred) -> list[ast.AST]:
 
 def where(fi: FuncInfo, node: ast.AST) -> str:
     return f"{fi.file}:{getattr(node, 'lineno', fi.lineno)}"
+
+
+def optional_numeric_params(f) -> set:
+    """parameters annotated `int | None` / `float | None` (0 is a legitimate value distinct from 'absent')"""
+    out = set()
+    a = f.node.args
+    for arg in a.posonlyargs + a.args + a.kwonlyargs:
+        ann = ast.unparse(arg.annotation) if arg.annotation is not None else ""
+        if "None" in ann and any(t in ann.replace("Optional", "") for t in ("int", "float")):
+            out.add(arg.arg)
+    return out
+
+
+def truthiness_uses(fnode, names) -> list:
+    """(node, name, how): places where one of `names` is used for its truth value: a test atom (`if x`, `if not x`, `x and ...`)
+    or a non-final operand of `x or default` / `x and ...` in any expression."""
+    from .cfg import normalise_compare, atoms
+    out = []
+    seen = set()
+    for n in ast.walk(fnode):
+        if isinstance(n, (ast.If, ast.While, ast.IfExp, ast.Assert)):
+            for a in atoms(normalise_compare(n.test)):
+                if a[0] in names and a[1] in ("truthy", "falsy"):
+                    out.append((n, a[0], f"tested as `{'not ' if a[1] == 'falsy' else ''}{a[0]}`"))
+                    for x in ast.walk(n.test):
+                        seen.add(id(x))
+    for n in ast.walk(fnode):
+        if isinstance(n, ast.BoolOp) and id(n) not in seen:
+            for v in n.values[:-1]:
+                if isinstance(v, ast.Name) and v.id in names:
+                    out.append((n, v.id, f"used as `{ast.unparse(n)[:40]}`"))
+    return out
